@@ -1,5 +1,5 @@
 SPECIFICATION Spec
 CONSTRAINT TrackL
-INVARIANTS HandedAtMostOnce NoGhostTasks QuiescentCount QuiescentQueues QuiescentLocks NoLostUpdate NotAccepted
+INVARIANTS HandedAtMostOnce NoGhostTasks QuiescentCount QuiescentQueues QuiescentLocks NoLostUpdate
 POSTCONDITION PrintMaxL
 CHECK_DEADLOCK FALSE
